@@ -84,7 +84,11 @@ func (e *Eng) evalSpecArgs(name string, params []Val, results []Val, vars map[st
 	for i, p := range fn.Params {
 		args[i] = e.adapt(args[i], p.Type())
 	}
-	v, _, _ := e.evalPure(fn, args, taint, nil, nil, st, oldSt, 0)
+	var side []T
+	v, _, _ := e.evalPureSide(fn, args, taint, nil, nil, st, oldSt, 0, &side)
+	for _, c := range dedup(side) {
+		e.assume(st, c)
+	}
 	return v
 }
 
@@ -100,13 +104,17 @@ type pureResult struct {
 
 // evalPure symbolically evaluates a loop-free, side-effect-free function as a term.
 func (e *Eng) evalPure(fn *ssa.Function, args []Val, taint []bool, bind []Val, bindTaint []bool, st, oldSt *State, depth int) (Val, bool, *pureResult) {
+	return e.evalPureSide(fn, args, taint, bind, bindTaint, st, oldSt, depth, nil)
+}
+
+func (e *Eng) evalPureSide(fn *ssa.Function, args []Val, taint []bool, bind []Val, bindTaint []bool, st, oldSt *State, depth int, side *[]T) (Val, bool, *pureResult) {
 	if depth > 12 {
 		panic(unsupportedErr{"spec evaluation too deep (recursive predicate?) in " + fn.String()})
 	}
 	if fn.Blocks == nil {
 		panic(unsupportedErr{"spec calls function without body: " + fn.String()})
 	}
-	fr := &Frame{fn: fn, vals: map[ssa.Value]Val{}, pure: true, taint: map[ssa.Value]bool{}, oldSt: oldSt, depth: depth}
+	fr := &Frame{fn: fn, vals: map[ssa.Value]Val{}, pure: true, taint: map[ssa.Value]bool{}, oldSt: oldSt, depth: depth, side: side}
 	pr := &pureResult{}
 	fr.pr = pr
 	for i, p := range fn.Params {
@@ -323,7 +331,9 @@ func (e *Eng) doCall(fr *Frame, st *State, instr ssa.Instruction, cc *ssa.CallCo
 	case *ssa.Builtin:
 		setRes(e.builtin(fr, st, instr, cv.Name(), cc, args))
 		if resVal != nil && anyTaint {
-			fr.taint[resVal] = true
+			if _, basic := under(resVal.Type()).(*types.Basic); !basic {
+				fr.taint[resVal] = true
+			}
 		}
 		return
 	}
@@ -352,9 +362,17 @@ func (e *Eng) doCall(fr *Frame, st *State, instr ssa.Instruction, cc *ssa.CallCo
 			panic(unsupportedErr{"spec calls unknown function value"})
 		}
 		// contract for function-typed struct fields: key "field:<Struct>.<field>"
-		if key := e.funcFieldKey(cc.Value); key != "" {
+		if key, owner := e.funcFieldKey(fr, cc.Value); key != "" {
 			if fc := e.w.Contracts[key]; fc != nil {
-				setRes(e.applyContract(fr, st, instr, fc, key, args, sig, mode))
+				// the contract of a function-typed field takes the owning object as its first parameter
+				all := append([]Val{owner}, args...)
+				setRes(e.applyContract(fr, st, instr, fc, key, all, sig, mode))
+				return
+			}
+		}
+		if fc := e.w.Contracts["dyncall:"+types.TypeString(sig, nil)]; fc != nil {
+			if len(sig.Params().String()) > 0 {
+				setRes(e.applyContract(fr, st, instr, fc, "dyncall:"+types.TypeString(sig, nil), args, sig, mode))
 				return
 			}
 		}
@@ -430,16 +448,16 @@ func (e *Eng) doCall(fr *Frame, st *State, instr ssa.Instruction, cc *ssa.CallCo
 	}
 }
 
-func (e *Eng) funcFieldKey(v ssa.Value) string {
+func (e *Eng) funcFieldKey(fr *Frame, v ssa.Value) (string, Val) {
 	// t = *(&x.f)
 	if u, ok := v.(*ssa.UnOp); ok {
 		if fa, ok := u.X.(*ssa.FieldAddr); ok {
 			st := fa.X.Type().Underlying().(*types.Pointer).Elem()
 			s := under(st).(*types.Struct)
-			return "field:" + typeName(st) + "." + s.Field(fa.Field).Name()
+			return "field:" + typeName(st) + "." + s.Field(fa.Field).Name(), e.val(fr, fa.X)
 		}
 	}
-	return ""
+	return "", nil
 }
 
 func (e *Eng) lookupIfaceContract(cc *ssa.CallCommon) *FuncContract {
@@ -615,16 +633,58 @@ func (e *Eng) specCall(fr *Frame, st *State, fn *ssa.Function, args []Val, argTa
 			bt = append(bt, false)
 		}
 		// taints of captured cells are tracked in the cells themselves
-		body, _, _ := e.evalPure(fv.Fn, []Val{bv}, nil, fv.Bind, bt, st, fr.oldSt, fr.depth+1)
+		var qside []T
+		body, _, _ := e.evalPureSide(fv.Fn, []Val{bv}, nil, fv.Bind, bt, st, fr.oldSt, fr.depth+1, &qside)
 		q := "forall"
 		if strings.HasPrefix(name, "spec_exists_") {
 			q = "exists"
 		}
 		e.quantified = true
-		return fmt.Sprintf("(%s (%s) %s)", q, strings.Join(decls, " "), body.(T)), false
+		bt2 := body.(T)
+		// type invariants of values read inside the body (slice headers etc.) are facts
+		if len(qside) > 0 {
+			if q == "forall" {
+				bt2 = tImp(tAnd(dedup(qside)...), bt2)
+			} else {
+				bt2 = tAnd(append(dedup(qside), bt2)...)
+			}
+		}
+		if q == "forall" {
+			var names []string
+			for _, d := range decls {
+				names = append(names, strings.Fields(strings.Trim(d, "()"))[0])
+			}
+			// Re-index by absolute row position: a read s[k] is (select row (bvadd off k)); substituting
+			// k := x - off turns it into (select row x), a trigger that matches every read of that row
+			// (k -> k+off is a bijection on bit-vectors, so the formula is equivalent).
+			if len(names) == 1 {
+				if nb, pat, ok := absoluteReindex(bt2, names[0]); ok {
+					return fmt.Sprintf("(forall (%s) (! %s :pattern (%s)))", decls[0], nb, pat), false
+				}
+			}
+			if pats := selectPatterns(bt2, names); len(pats) > 0 {
+				var ps strings.Builder
+				for _, p := range pats {
+					ps.WriteString(" :pattern (" + p + ")")
+				}
+				return fmt.Sprintf("(forall (%s) (! %s%s))", strings.Join(decls, " "), bt2, ps.String()), false
+			}
+		}
+		return fmt.Sprintf("(%s (%s) %s)", q, strings.Join(decls, " "), bt2), false
 	case name == "spec_fresh":
 		r := ghostKey(args[0])
 		return tOr(tEq(r, null), e.freshAtEntry(r)), false
+	case name == "spec_sameslice":
+		a, aok := args[0].(*IfaceV)
+		b, bok := args[1].(*IfaceV)
+		if aok && bok {
+			if sa, ok := a.Boxed.(*SliceV); ok {
+				if sb, ok := b.Boxed.(*SliceV); ok {
+					return tAnd(tEq(sa.B, sb.B), tEq(sa.O, sb.O), tEq(sa.L, sb.L), tEq(sa.C, sb.C)), false
+				}
+			}
+		}
+		panic(unsupportedErr{"spec_sameslice needs two slices"})
 	case name == "spec_sameref":
 		return tEq(ghostKey(args[0]), ghostKey(args[1])), false
 	case name == "spec_allocated":
@@ -636,8 +696,20 @@ func (e *Eng) specCall(fr *Frame, st *State, fn *ssa.Function, args []Val, argTa
 	if !fr.pure {
 		panic(unsupportedErr{"call of spec function " + name + " from code"})
 	}
-	v, t, _ := e.evalPure(fn, args, argTaint, bind, bindTaint, st, fr.oldSt, fr.depth+1)
+	v, t, _ := e.evalPureSide(fn, args, argTaint, bind, bindTaint, st, fr.oldSt, fr.depth+1, fr.side)
 	return v, t
+}
+
+func dedup(ts []T) []T {
+	seen := map[T]bool{}
+	var out []T
+	for _, t := range ts {
+		if !seen[t] {
+			seen[t] = true
+			out = append(out, t)
+		}
+	}
+	return out
 }
 
 func ghostKey(v Val) T {
@@ -1346,16 +1418,15 @@ func (e *Eng) doAppend(fr *Frame, st *State, instr ssa.Instruction, cc *ssa.Call
 			st.heap[name] = app("store", h, resB, row)
 		} else {
 			newRow := e.fresh("approw", arrSort(sI64, c.sort))
-			e.assumeForallRange(st, tl, func(k T) T {
-				return tEq(app("select", newRow, app("bvadd", start, k)), srcRow(k))
-			}, func(k T) T { return app("select", newRow, app("bvadd", start, k)) })
 			if !e.collect {
 				e.nfresh++
 				kq := fmt.Sprintf("k!%d", e.nfresh)
 				e.quantified = true
 				hi := app("bvadd", s.O, newLen)
-				e.assume(st, fmt.Sprintf("(forall ((%s %s)) (! (=> (or (bvslt %s %s) (bvsge %s %s)) (= (select %s %s) (select %s %s))) :pattern ((select %s %s))))",
-					kq, sI64, kq, start, kq, hi, newRow, kq, oldRow, kq, newRow, kq))
+				// absolute index j: inside [start, hi) the appended elements, elsewhere the old row
+				srcAt := srcRow(app("bvsub", kq, start))
+				e.assume(st, fmt.Sprintf("(forall ((%s %s)) (! (= (select %s %s) (ite (and (bvsle %s %s) (bvslt %s %s)) %s (select %s %s))) :pattern ((select %s %s))))",
+					kq, sI64, newRow, kq, start, kq, kq, hi, srcAt, oldRow, kq, newRow, kq))
 			}
 			st.heap[name] = app("store", h, resB, newRow)
 		}
@@ -1394,15 +1465,13 @@ func (e *Eng) doCopy(fr *Frame, st *State, instr ssa.Instruction, cc *ssa.CallCo
 			}
 			return tSel(h, sb, app("bvadd", so, k))
 		}
-		e.assumeForallRange(st, nn, func(k T) T {
-			return tEq(app("select", newRow, app("bvadd", d.O, k)), src(k))
-		}, func(k T) T { return app("select", newRow, app("bvadd", d.O, k)) })
 		if !e.collect {
 			e.nfresh++
 			kq := fmt.Sprintf("k!%d", e.nfresh)
 			e.quantified = true
-			e.assume(st, fmt.Sprintf("(forall ((%s %s)) (! (=> (or (bvslt %s %s) (bvsge %s %s)) (= (select %s %s) (select %s %s))) :pattern ((select %s %s))))",
-				kq, sI64, kq, d.O, kq, app("bvadd", d.O, nn), newRow, kq, oldRow, kq, newRow, kq))
+			hi := app("bvadd", d.O, nn)
+			e.assume(st, fmt.Sprintf("(forall ((%s %s)) (! (= (select %s %s) (ite (and (bvsle %s %s) (bvslt %s %s)) %s (select %s %s))) :pattern ((select %s %s))))",
+				kq, sI64, newRow, kq, d.O, kq, kq, hi, src(app("bvsub", kq, d.O)), oldRow, kq, newRow, kq))
 		}
 		st.heap[name] = app("store", h, d.B, newRow)
 		e.modified[name] = true
@@ -1444,4 +1513,152 @@ func globalMatches(heapName, varName string) bool {
 	}
 	full := rest[:i]
 	return full == varName || strings.HasSuffix(full, "."+varName)
+}
+
+
+// selectPatterns proposes e-matching triggers for a quantified body: the array reads (select A I) whose
+// index mentions every bound variable while the array does not mention any.
+func selectPatterns(body string, vars []string) []string {
+	var out []string
+	seen := map[string]bool{}
+	mentions := func(t string, v string) bool {
+		i := 0
+		for {
+			k := strings.Index(t[i:], v)
+			if k < 0 {
+				return false
+			}
+			k += i
+			end := k + len(v)
+			if (k == 0 || !isSymChar(t[k-1])) && (end == len(t) || !isSymChar(t[end])) {
+				return true
+			}
+			i = end
+		}
+	}
+	for i := 0; i+8 < len(body); i++ {
+		if !strings.HasPrefix(body[i:], "(select ") {
+			continue
+		}
+		e := matchParen(body, i)
+		if e < 0 {
+			continue
+		}
+		term := body[i : e+1]
+		// split args
+		inner := term[len("(select ") : len(term)-1]
+		var a, idx string
+		if strings.HasPrefix(inner, "(") {
+			k := matchParen(inner, 0)
+			if k < 0 {
+				continue
+			}
+			a, idx = inner[:k+1], strings.TrimSpace(inner[k+1:])
+		} else if strings.HasPrefix(inner, "|") {
+			k := strings.Index(inner[1:], "|") + 1
+			a, idx = inner[:k+1], strings.TrimSpace(inner[k+1:])
+		} else {
+			k := strings.Index(inner, " ")
+			if k < 0 {
+				continue
+			}
+			a, idx = inner[:k], strings.TrimSpace(inner[k+1:])
+		}
+		ok := true
+		for _, v := range vars {
+			if !mentions(idx, v) || mentions(a, v) {
+				ok = false
+			}
+		}
+		if strings.Contains(term, "(forall ") || strings.Contains(term, "(exists ") || strings.Contains(idx, "(ite ") {
+			ok = false
+		}
+		if ok && !seen[term] && len(out) < 4 {
+			seen[term] = true
+			out = append(out, term)
+		}
+	}
+	return out
+}
+
+func isSymChar(c byte) bool {
+	return c == '_' || c == '!' || c == '.' || c == '#' || c >= '0' && c <= '9' || c >= 'a' && c <= 'z' || c >= 'A' && c <= 'Z'
+}
+
+
+// absoluteReindex looks for a read (select A (bvadd OFF k)) with k the bound variable, OFF and A free of k,
+// and rewrites the body with k := k - OFF, so that the read becomes (select A k).
+func absoluteReindex(body, k string) (string, string, bool) {
+	pats := selectPatterns(body, []string{k})
+	for _, term := range pats {
+		inner := term[len("(select ") : len(term)-1]
+		var a, idx string
+		if strings.HasPrefix(inner, "(") {
+			j := matchParen(inner, 0)
+			a, idx = inner[:j+1], strings.TrimSpace(inner[j+1:])
+		} else if strings.HasPrefix(inner, "|") {
+			j := strings.Index(inner[1:], "|") + 1
+			a, idx = inner[:j+1], strings.TrimSpace(inner[j+1:])
+		} else {
+			j := strings.Index(inner, " ")
+			a, idx = inner[:j], strings.TrimSpace(inner[j+1:])
+		}
+		// idx must be exactly (bvadd OFF k)
+		if !strings.HasPrefix(idx, "(bvadd ") || !strings.HasSuffix(idx, " "+k+")") {
+			continue
+		}
+		off := strings.TrimSpace(idx[len("(bvadd ") : len(idx)-len(k)-2])
+		if off == "" || !balancedTerm(off) {
+			continue
+		}
+		// substitute: first the whole index by k, then the remaining k by (bvsub k off)
+		const mark = "\x00IDX\x00"
+		nb := strings.ReplaceAll(body, idx, mark)
+		nb = replaceSym(nb, k, "(bvsub "+k+" "+off+")")
+		nb = strings.ReplaceAll(nb, mark, k)
+		return nb, "(select " + a + " " + k + ")", true
+	}
+	return "", "", false
+}
+
+func balancedTerm(t string) bool {
+	d := 0
+	for i := 0; i < len(t); i++ {
+		switch t[i] {
+		case '(':
+			d++
+		case ')':
+			d--
+			if d < 0 {
+				return false
+			}
+		case ' ':
+			if d == 0 {
+				return false
+			}
+		}
+	}
+	return d == 0
+}
+
+// replaceSym replaces whole-symbol occurrences of sym.
+func replaceSym(t, sym, with string) string {
+	var b strings.Builder
+	for i := 0; i < len(t); {
+		k := strings.Index(t[i:], sym)
+		if k < 0 {
+			b.WriteString(t[i:])
+			break
+		}
+		k += i
+		end := k + len(sym)
+		if (k == 0 || !isSymChar(t[k-1])) && (end == len(t) || !isSymChar(t[end])) {
+			b.WriteString(t[i:k])
+			b.WriteString(with)
+		} else {
+			b.WriteString(t[i:end])
+		}
+		i = end
+	}
+	return b.String()
 }
